@@ -1,3 +1,4 @@
+COMP = 'mla/src/layers/compress.rs'
 ENC = 'mla/src/layers/encrypt.rs'
 CMP = 'mla/src/layers/compress.rs'
 POS = 'mla/src/layers/position.rs'
@@ -24,4 +25,7 @@ MUTANTS = [
      'edits': [(POS, "    fn flush(&mut self) -> io::Result<()> {\n        self.inner.flush()\n    }", "    fn flush(&mut self) -> io::Result<()> {\n        let inner = &mut self.inner;\n        inner.flush()?;\n        Ok(())\n    }")]},
     # correct twin of the seeded C14 change (buffered encryption writer whose flush drains the buffer through a helper)
     {'id': 'c14-benign-buffered-writer-flush-drains', 'props': ['C14'], 'expect': 'silent', 'patch': 'patches/c14-buffered-encrypt-writer-flush-drains.diff'},
+    # revert of fix d335549 (end of input reported without draining the decoder)
+    {'id': 'c14-failsafe-eof-before-decode-again', 'props': ['C14'], 'expect': 'fire', 'keys': ['eof-before-decode'],
+     'edits': [(COMP, "                                // Inside a stream and no more data available: the\n                                // decoder may still hold already decoded bytes\n                                inner_eof = true;\n", "                                return Err(io::Error::new(\n                                    io::ErrorKind::UnexpectedEof,\n                                    \"No more data from the inner layer\",\n                                ));\n")]},
 ]
